@@ -251,8 +251,9 @@ def config_dict(ctxs, with_contexts=None):
 # ---------------------------------------------------------------------------------------------
 # running a front end
 # ---------------------------------------------------------------------------------------------
-def run_frontend(fe, tab, cfg_dict, tmpdir=None):
-    """Returns the list of yielded ContextResults (evaluated)."""
+def run_frontend(fe, tab, cfg_dict, tmpdir=None, twice=False):
+    """Returns the list of yielded ContextResults (evaluated).  With `twice`, the SAME stream object is run a second
+    time and both lists are returned."""
     with warnings.catch_warnings():
         warnings.simplefilter("ignore")
         cfg = cfg_dict if isinstance(cfg_dict, Config) else Config(cfg_dict)
@@ -288,7 +289,10 @@ def run_frontend(fe, tab, cfg_dict, tmpdir=None):
         else:
             raise ValueError(fe)
         with np.errstate(all="ignore"), sut.time_limit(60):
-            return list(st.run(cfg))
+            first = list(st.run(cfg))
+            if twice:
+                return first, list(st.run(cfg))
+            return first
 
 
 def canon_ctx_result(r):
